@@ -153,6 +153,11 @@ def universe(fam, n, variant='centred'):
         from .kkey import K
         grid = [K(p - n) for p in range(2 * n + 1)]
         return grid[1::2], grid
+    if variant == 'unhash':      # orderable but unhashable keys (vt.kkey.UH), object-keyed families only
+        assert kt == 'O'
+        from .kkey import UH
+        grid = [UH(p - n) for p in range(2 * n + 1)]
+        return grid[1::2], grid
     if variant == 'str':
         assert kt == 'O'
         grid = ['k%02d' % p for p in range(2 * n + 1)]
